@@ -27,11 +27,16 @@ PROPS = ['C01', 'C02', 'C03', 'C04', 'C05', 'C06', 'C07', 'C09', 'C13', 'C14', '
 
 
 def analyse(pid, tier, root, evidence_dir=None, quiet=True, model=None):
-    """Run the rules of one property and return the Report (nothing printed or written)."""
+    """Run the rules of one property and return the Report (nothing printed or written).
+    An AnalysisError is re-raised only if no violation was established before it."""
     mod = importlib.import_module(f'rules.{pid.lower()}')
     model = model or Model(root)
     rep = Report(pid, tier, root, evidence_dir=evidence_dir, quiet=quiet)
-    mod.run(model, rep, tier)
+    try:
+        mod.run(model, rep, tier)
+    except AnalysisError:
+        if not any(not o.ok for o in rep.obligations):
+            raise
     return rep
 
 
@@ -43,7 +48,14 @@ def run_property(pid, tier, root, evidence_dir=None, replay_key=None, quiet=Fals
     rep.unit('classes_in_model', len(model.classes))
     rep.unit('functions_in_model', len(model.functions))
     rep.extra_coverage['tree_digest'] = model.digest()
-    mod.run(model, rep, tier)
+    try:
+        mod.run(model, rep, tier)
+    except AnalysisError as e:
+        # an anchor moved or a construct could not be classified: say so, but do not lose violations that were already established
+        print(f'ANALYSIS-ERROR property={pid}: {e}')
+        if any(not o.ok for o in rep.obligations) and rep.finish(only_key=replay_key) == 1:
+            return 1
+        return 2
     shortfall = False
     if tier == 'thorough' and replay_key is None:
         shortfall = thorough_selftest(pid, root, rep)
